@@ -232,3 +232,34 @@ func sdkChain() string {
 	}
 	return strings.Join(out, "<")
 }
+
+// retainingFactory wraps a real secure-memory factory: it remembers the heap slice it was handed
+// (C10 re-reads it after the public call returned) and can be made to fail before touching it.
+type retainingFactory struct {
+	w     *World
+	proc  int
+	inner securememory.SecretFactory
+}
+
+func (f *retainingFactory) New(b []byte) (securememory.Secret, error) {
+	c, fault := f.w.enter("sf.new", f.proc, "", 0)
+	f.w.retain("sf.new.arg", b)
+	if fault != FNone {
+		f.w.leave(c, "err")
+		return nil, fmt.Errorf("secret factory new: %w", errInjected)
+	}
+	s, err := f.inner.New(b)
+	f.w.leave(c, "real")
+	return s, err
+}
+
+func (f *retainingFactory) CreateRandom(size int) (securememory.Secret, error) {
+	c, fault := f.w.enter("sf.rand", f.proc, "", 0)
+	if fault != FNone {
+		f.w.leave(c, "err")
+		return nil, fmt.Errorf("secret factory random: %w", errInjected)
+	}
+	s, err := f.inner.CreateRandom(size)
+	f.w.leave(c, "real")
+	return s, err
+}
